@@ -254,10 +254,13 @@ def _plant_repr(rq, df, j):
     N = len(df)
     base = [100000.0, 2.0 ** 24 - 2, 2.0 ** 31 - 2, 2.0 ** 53 - N - 3][j % 4]
     df["subtomo_id"] = base + 1.0 + rq.permutation(N)
-    ck = ["1e5", "2^24", "2^31", "small"][(j // 4) % 4]
+    ck = str(rq.choice(["small", "1e5", "2^24", "2^31"], p=[0.4, 0.2, 0.2, 0.2]))
     off = {"1e5": 1e5, "2^24": 2.0 ** 24, "2^31": 2.0 ** 31, "small": 0.0}[ck]
     for c in ("x", "y", "z"):
         df[c] = off + np.round(rq.uniform(1, 60, N)) * (1.0 if ck != "small" else rq.choice([-1.0, 1.0], N))
+        if ck == "small":          # around 0 the spacing of v is finer than that of v + 0.5: 0.5 - ulp is the classic trap
+            near0 = rq.random(N) < 0.5
+            df.loc[near0, c] = rq.choice([0.0, 0.0, 0.0, 1.0, -1.0], int(near0.sum()))
     ulp_ties = 0
     for r in range(N):
         kind = int(rq.integers(0, 6))
@@ -645,6 +648,8 @@ def extra(ctx):
         df.loc[0, ["shift_x", "shift_y", "shift_z"]] = 0.0                    # all shifts exactly 0, non-integer x,y,z
         df.loc[1, ["shift_x", "shift_y", "shift_z"]] = 0.0                    # all shifts exactly 0, integer x,y,z
         df.loc[1, ["x", "y", "z"]] = np.round(df.loc[1, ["x", "y", "z"]].to_numpy(dtype=float))
+        df.loc[0, "y"] = np.nextafter(0.5, 0.0)                               # an ulp below / above the ties around 0
+        df.loc[0, "x"] = -np.nextafter(0.5, 0.0)
         s = rng.uniform(-25, 25, 3)
         if abs(s[0]) + abs(s[1]) < 1.0:
             s[0] += 5.0
